@@ -154,6 +154,7 @@ def correspond(ctx, scale):
     import torch
     from vlib import impl
     rng = ctx.rng
+    vqrec.PERMUTE_VIEWS = False      # repeated calls are compared bit for bit: a different memory layout may change float sums in the last bit
     failures, samples, cases, meta = [], [], [], []
     evaluations = 0
     nontrivial = 0
@@ -309,6 +310,34 @@ def correspond(ctx, scale):
                 if op not in ('decode', 'ce-eval', 'ce-frozen', 'bad-eval') and (op == 'eval' or not f['stochastic']) and not first_init:
                     try:
                         r1 = flat_out(ret)
+                        # the caller OWNS what it gets back: it scribbles in place over every returned tensor (and over its own input) - if an output
+                        # aliases module state, another output or a cached tensor, the state or the repeated call below changes
+                        x_keep = x.detach().clone()
+
+                        def scribble(r_):
+                            if isinstance(r_, torch.Tensor):
+                                with torch.no_grad():
+                                    if r_.dtype.is_floating_point:
+                                        r_.detach().mul_(-3.0).add_(11.0)
+                                    elif r_.dtype in (torch.int32, torch.int64):
+                                        r_.detach().fill_(0)
+                            elif isinstance(r_, (tuple, list)):
+                                for e_ in r_:
+                                    scribble(e_)
+                        try:
+                            scribble(ret)
+                            dist['caller_scribbles_over_outputs'] = dist.get('caller_scribbles_over_outputs', 0) + 1
+                        except RuntimeError:
+                            pass          # an output that cannot be written in place (an expanded view) is the library's way of saying "read only"
+                        if not torch.equal(torch.nan_to_num(x.detach()), torch.nan_to_num(x_keep)):
+                            failures.append({'key': f'{f["name"]}:{op}:output-aliases-input', 'what': f'{f["name"]}: writing into the returned tensors changed the caller\'s input (an output aliases it; history {trace})',
+                                             'case': dict(name=f['name'], ops=trace)})
+                            x = x_keep
+                        ok_s, why_s = same(after, blob(mod))
+                        if not ok_s:
+                            failures.append({'key': f'{f["name"]}:{op}:output-aliases-state', 'what': f'{f["name"]}: writing into the tensors returned by the pure call "{op}" changed the module\'s state: {why_s} (history {trace})',
+                                             'case': dict(name=f['name'], ops=trace)})
+                            break
                         r2 = flat_out(call(f, mod, x, op, seed + 1))
                         dist['repeat_checked'] += 1
                         if not outs_equal(r1, r2):
